@@ -86,7 +86,7 @@ for p in props:
         "engine": "vcheck",
         "level_claimed": {"category": "exploration", "text": text, "design_ref": ref},
         "level_note": NOTE,
-        "technique": tech + ("" if pid == "C16" else "; thorough tier adds a coverage-guided libFuzzer campaign (cargo-fuzz target engine/fuzz, 16 jobs x 1.5M runs, 0.1M for history properties) over the property's operation table with the same oracle inside the target"),
+        "technique": tech + ("" if pid == "C16" else "; thorough tier adds a coverage-guided libFuzzer campaign (cargo-fuzz target engine/fuzz, 16 jobs x 1.5M runs, 0.3M for history properties) over the property's operation table with the same oracle inside the target"),
     })
 hooks_commits = []
 manifest = {
